@@ -1,6 +1,7 @@
 package decoders
 
 import (
+	"bytes"
 	"context"
 	"errors"
 	"fmt"
@@ -38,6 +39,27 @@ type protoDecoder struct {
 	decodedConfigHeaders http.Header
 	ammoNum              uint // number of ammo reads
 	passNum              uint // number of file reads
+}
+
+// readSized reads exactly size bytes of ammo payload. Size comes from ammo file, so it is
+// validated, and memory is allocated only for data that really can be read.
+func readSized(r io.Reader, size int) (buff []byte, n int, err error) {
+	if size < 0 {
+		return nil, 0, fmt.Errorf("negative size: %d", size)
+	}
+	const maxPrealloc = 1 << 20
+	if size <= maxPrealloc {
+		buff = make([]byte, size)
+		n, err = io.ReadFull(r, buff)
+		return buff, n, err
+	}
+	var b bytes.Buffer
+	b.Grow(maxPrealloc)
+	copied, err := io.CopyN(&b, r, int64(size))
+	if err == io.EOF {
+		err = io.ErrUnexpectedEOF
+	}
+	return b.Bytes(), int(copied), err
 }
 
 // PassNum returns number of finished file passes.
